@@ -34,7 +34,7 @@ from typing import Any
 
 from src.analyzers.rust_base import TREE_SITTER_RUST_AVAILABLE
 from src.core.base import BaseLintContext, MultiLanguageLintRule
-from src.core.linter_utils import load_linter_config
+from src.core.linter_utils import load_linter_config, path_in_project
 from src.core.types import Violation
 from src.core.violation_utils import get_violation_line, has_python_noqa
 from src.linter_config.directive_markers import has_bare_line_ignore
@@ -425,7 +425,7 @@ class MagicNumberRule(MultiLanguageLintRule):  # thailint: ignore[srp]
         self, value: float | int, context: BaseLintContext, config: MagicNumberConfig
     ) -> bool:
         """Check if number is in allowed context."""
-        return value in config.allowed_numbers or self._is_test_file(context.file_path)
+        return value in config.allowed_numbers or self._is_test_file(path_in_project(context))
 
     def _is_typescript_special_context(
         self, node: Any, analyzer: TypeScriptMagicNumberAnalyzer, context: BaseLintContext
